@@ -132,6 +132,14 @@ func (s *Slicer) Origins(v ssa.Value) []ssa.Value {
 					}
 					return
 				}
+				if s.P != nil {
+					if vals := s.P.boundFieldStores(x); len(vals) > 0 {
+						for _, val := range vals {
+							visit(val, resIdx, depth)
+						}
+						return
+					}
+				}
 				if fa, ok := x.X.(*ssa.FieldAddr); ok && s.ThroughFieldsOfAllocs {
 					if al, ok := fa.X.(*ssa.Alloc); ok {
 						n := 0
